@@ -141,8 +141,9 @@ Qed.
 Theorem cancelled_progress : forall s,
   cancelled s = true -> prod s <> PDone -> exists s', step s s'.
 Proof.
-  intros [p c r] Hc Hp. cbn in *. subst c. destruct p as [todo|id todo|].
+  intros [p c r] Hc Hp. cbn in *. subst c. destruct p as [todo|todo|id todo|].
   - eexists. apply st_walk_cancelled.
+  - eexists. apply st_lookup_cancelled.
   - eexists. apply st_send_cancelled.
   - contradiction.
 Qed.
